@@ -47,25 +47,26 @@ type Dims struct {
 	MRGRows     int     `json:"mrg_rows"`
 	MBRows      int     `json:"mb_rows"`
 	FS          bool    `json:"fs"`
-	JSONTrip    bool    `json:"json_trip"`   // the Query goes through JSON before use
-	External    bool    `json:"external"`    // one flush group is written by an external writer using the public helpers
-	Conc        int     `json:"conc"`        // concurrent re-runs of the query
+	JSONTrip    bool    `json:"json_trip"` // the Query goes through JSON before use
+	External    bool    `json:"external"`  // one flush group is written by an external writer using the public helpers
+	Conc        int     `json:"conc"`      // concurrent re-runs of the query
 	MaxQC       int     `json:"max_qc"`
 	MergeFiles  int     `json:"merge_files"` // MaxFilesToMergePerOperation
 	MergeMRG    int     `json:"merge_mrg"`   // MaxRowGroupRows of the merging engine
 	Batch       int     `json:"batch"`       // extra filler rows per flush group (large results / several batches)
+	LegacyMeta  bool    `json:"legacy_meta"` // the MetaStore yields uncompressed blocks with Compression "" (what files written before "" was normalised look like)
 }
 
 type Case struct {
-	ID      int      `json:"id"`
-	Rows    []Row    `json:"rows"`
-	Flush   []int    `json:"flush"` // flush group of each row (1-based groups)
-	Tok     string   `json:"tok"`
-	MMIdx   []string `json:"mmidx"`
-	Q       Query    `json:"q"`
-	Merges  int      `json:"merges"`
-	PartOn  bool     `json:"part_on"` // a PartitionFunc is configured
-	Dims    Dims     `json:"dims"`
+	ID     int      `json:"id"`
+	Rows   []Row    `json:"rows"`
+	Flush  []int    `json:"flush"` // flush group of each row (1-based groups)
+	Tok    string   `json:"tok"`
+	MMIdx  []string `json:"mmidx"`
+	Q      Query    `json:"q"`
+	Merges int      `json:"merges"`
+	PartOn bool     `json:"part_on"` // a PartitionFunc is configured
+	Dims   Dims     `json:"dims"`
 }
 
 type gen struct {
@@ -332,6 +333,7 @@ func (g *gen) NewCase(id int, thorough bool) *Case {
 	d.MaxQC = []int{1, 2, 4, 1000}[g.pick(4)]
 	d.MergeFiles = []int{2, 3, 10}[g.pick(3)]
 	d.MergeMRG = []int{2, 4, 1000}[g.pick(3)]
+	d.LegacyMeta = g.pick(5) == 0
 	if thorough && g.pick(10) == 0 {
 		d.Batch = 150 + g.pick(200)
 	} else if g.pick(25) == 0 {
